@@ -330,14 +330,23 @@ func (g *Gen) changeSet() {
 	n := r.Range(0, g.b.MaxOpsPerVersion)
 	picked := map[string]bool{}
 	var ks [][]byte
+	// a quarter of the change sets are not in the normal form extraction
+	// produces: pairs in arbitrary order, keys repeated (set then remove,
+	// remove then set, set twice); they are applied pair by pair all the same
+	raw := !g.b.SortedWrites && r.Chance(1, 4) // (histories that must stay in normal form keep it)
 	for i := 0; i < n; i++ {
 		k := g.key()
-		if !picked[string(k)] {
+		if raw && len(ks) > 0 && r.Chance(1, 3) {
+			k = ks[r.Intn(len(ks))]
+		}
+		if raw || !picked[string(k)] {
 			picked[string(k)] = true
 			ks = append(ks, k)
 		}
 	}
-	sortKeys(ks)
+	if !raw {
+		sortKeys(ks)
+	}
 	if g.present == nil {
 		g.present = map[string]bool{}
 	}
